@@ -1286,7 +1286,8 @@ class Walker:
         site = self.site(st, node)
         skip = f.cls is not None and f.kind in ("method", "classmethod")
         bound = self._bind_args(f, args, kwargs, skip_self=skip)
-        v = ("ret", f.qualname, site, tuple(args) + tuple(v for _, v in sorted(kwargs.items())))
+        v = ("ret", f.qualname, site, ((recv,) if (recv is not None and f.cls is not None and f.kind == "method") else ())
+             + tuple(args) + tuple(v for _, v in sorted(kwargs.items())))
         self.emit(st, "call", node, name=f.src_name, target=f, recv=recv, args=args, kwargs=kwargs, inlined=False,
                   mutates=None, result=v, bound=bound, K=K.name if K else None)
         if f.cls is not None and K is not None and recv is not None and recv[0] != "cls":
